@@ -6,6 +6,7 @@ import Lean.Data.Json
 import SqlglotModel.Model.Cursor
 import SqlglotModel.Model.ScanProgress
 import SqlglotModel.Model.FindParser
+import SqlglotModel.Model.FormatScan
 
 open Lean (Json)
 open SqlglotModel.Cursor
@@ -152,6 +153,15 @@ def handle (toks : List Tok) (line : String) : Except String (List Tok × String
     | .notFound => pure (toks, "none")
     | .keyError k => pure (toks, "keyerror " ++ (Json.str (String.ofList k)).compress)
     | .indexError => pure (toks, "indexerror")
+  | "fmt" =>
+    let str ← (← j.getObjVal? "s").getStr?
+    let spec ← (← j.getObjVal? "spec").getStr?
+    let r := SqlglotModel.FormatScan.hasTimeSpecifier (fun c => spec.toList.contains c) str.toList
+    match r with
+    | .found => pure (toks, "true")
+    | .notFound => pure (toks, "false")
+    | .indexError => pure (toks, "indexerror")
+    | .running => pure (toks, "running")
   | "scan" =>
     let size ← jNat (← j.getObjVal? "size")
     let start ← jNat (← j.getObjVal? "start")
